@@ -68,7 +68,7 @@ func (S) Info() scen.Info {
 			"reference model":      "write-once map (direct interval rule + porcupine v1.3.0 nondeterministic model, partitioned by key)",
 		},
 		QuickUnits: 60000, ThoroughUnits: 3000000, QuickSecs: 240, ThoroughSecs: 1200,
-		ProbeKeys: []string{"probe.fallback_putstream", "probe.fallback_getstream", "probe.fallback_peek", "probe.fallback_putvec", "probe.buffer_scribbled", "probe.key_with_nul", "probe.key_with_slash", "probe.key_dotdot", "probe.key_empty", "probe.concurrent_put_read", "probe.failed_put", "probe.porcupine_checked", "probe.empty_content", "probe.via_linksystem_openers", "probe.putvec_same_vector_twice", "probe.get_result_scribbled", "probe.large_block"},
+		ProbeKeys: []string{"probe.fallback_putstream", "probe.fallback_getstream", "probe.fallback_peek", "probe.fallback_putvec", "probe.buffer_scribbled", "probe.key_with_nul", "probe.key_with_slash", "probe.key_dotdot", "probe.key_empty", "probe.concurrent_put_read", "probe.failed_put", "probe.porcupine_checked", "probe.empty_content", "probe.via_linksystem_openers", "probe.putvec_same_vector_twice", "probe.get_result_scribbled", "probe.large_block", "probe.store_value_per_client"},
 		EventsKey: "events",
 	}
 }
@@ -145,15 +145,17 @@ type world struct {
 	openW     linking.BlockWriteOpener
 	openR     linking.BlockReadOpener
 
-	backend int
-	bname   string
-	store   rw // storage.* backends
-	mem     *cidlink.Memory
-	hist    []hop
-	kept    []keptGet // slices Get returned (a safe copy by contract): they belong to the caller
-	helper  bool
-	faulty  bool
-	ncl     int
+	backend   int
+	bname     string
+	store     rw // storage.* backends
+	mem       *cidlink.Memory
+	hist      []hop
+	another   func() (rw, error) // opens the same directory with another Store value (filesystem back ends)
+	perClient map[int]rw         // client -> its own Store value over the shared directory
+	kept      []keptGet          // slices Get returned (a safe copy by contract): they belong to the caller
+	helper    bool
+	faulty    bool
+	ncl       int
 }
 
 // absent classifies a failed read: on a healthy store every error means
@@ -215,12 +217,21 @@ func (S) RunTape(t *sim.Tape, st *sim.Stats, keepLog bool) *sim.Outcome {
 		if w.backend == 2 {
 			w.bname = "fsstore(defaults)"
 			err = fs.InitDefaults(base)
+			w.another = func() (rw, error) {
+				x := &fsstore.Store{}
+				return x, x.InitDefaults(base)
+			}
 		} else {
 			esc := t.Choice(2, "cfg.esc")
 			sh := t.Choice(4, "cfg.shard")
 			w.bname = fmt.Sprintf("fsstore(esc=%s,shard=%s)", []string{"hex", "b32lower"}[esc], []string{"r12", "r122", "r133", "flat(user-defined)"}[sh])
 			err = fs.Init(base, []func(string) string{hexEsc, b32lower}[esc],
 				[]func(string, *[]string){sharding.Shard_r12, sharding.Shard_r122, sharding.Shard_r133, shardFlat}[sh])
+			w.another = func() (rw, error) {
+				x := &fsstore.Store{}
+				return x, x.Init(base, []func(string) string{hexEsc, b32lower}[esc],
+					[]func(string, *[]string){sharding.Shard_r12, sharding.Shard_r122, sharding.Shard_r133, shardFlat}[sh])
+			}
 		}
 		if err != nil {
 			o.Fail("init", "fsstore.Init", "Init failed on a healthy disk: %v", err)
@@ -230,6 +241,12 @@ func (S) RunTape(t *sim.Tape, st *sim.Stats, keepLog bool) *sim.Outcome {
 		faulty = t.Pct(25, "cfg.faulty")
 		w.d.SplitWrites = t.Bool("cfg.split")
 		w.d.NoReplaceRename = t.Pct(15, "cfg.rename_noreplace")
+	}
+	if !hide && w.another != nil && t.Pct(25, "cfg.store_per_client") {
+		// every client opens the directory itself: several Store values over one directory
+		w.perClient = map[int]rw{}
+		w.bname += "+store-per-client"
+		st.Inc("probe.store_value_per_client")
 	}
 	if hide && w.store != nil {
 		if t.Pct(25, "cfg.vecnative") {
@@ -549,6 +566,19 @@ func (w *world) do(client, kind, k int, pieces []int, end, chunk int, scribble b
 		return
 	}
 	store := w.store
+	if w.perClient != nil && client > 0 {
+		if w.perClient[client] == nil {
+			x, err := w.another()
+			if err != nil {
+				if !w.faulty {
+					w.o.Fail("init", "fsstore.Init", "a second Store value could not be initialised on the directory of a working store: %v", err)
+				}
+				x = w.store
+			}
+			w.perClient[client] = x
+		}
+		store = w.perClient[client]
+	}
 	switch kind {
 	case 0:
 		h.kind = "put"
